@@ -193,6 +193,8 @@ pub struct Host {
 	pub traces: Rc<RefCell<Vec<String>>>,
 	pub files: Rc<RefCell<BTreeMap<String, String>>>,
 	pub loads: Rc<RefCell<Vec<String>>>,
+	/// render every error in every trace format as well (the rendering must not panic either)
+	pub all_formats: std::cell::Cell<bool>,
 }
 impl Host {
 	pub fn new() -> Self {
@@ -210,6 +212,7 @@ impl Host {
 			traces,
 			files,
 			loads,
+			all_formats: std::cell::Cell::new(false),
 		};
 		// embedder code running inside evaluation (S3): a strict and a lazy native
 		#[allow(deprecated)]
@@ -318,12 +321,17 @@ impl Host {
 				class: "ok".to_owned(),
 				traces,
 			},
-			Err(e) => Observed {
-				ok: false,
-				text: format_error(&e),
-				class: error_class(&e).to_owned(),
-				traces,
-			},
+			Err(e) => {
+				if self.all_formats.get() {
+					let _ = crate::sut::format_error_all(&e);
+				}
+				Observed {
+					ok: false,
+					text: format_error(&e),
+					class: error_class(&e).to_owned(),
+					traces,
+				}
+			}
 		}
 	}
 }
@@ -350,6 +358,11 @@ pub const LIB_ASSERTING: &str = "/lib/asserting.libsonnet";
 
 /// library texts starting with this marker are served as raw bytes (latin-1 reading of the rest)
 pub const RAW_BYTES_MARKER: &str = "\u{1}RAW:";
+
+/// every library file of the pool (programs damaged by mutation may still import them)
+pub fn all_lib_texts() -> BTreeMap<String, String> {
+	lib_texts()
+}
 
 fn lib_texts() -> BTreeMap<String, String> {
 	let mut m = BTreeMap::new();
@@ -859,7 +872,7 @@ pub fn gen_family(rng: &mut Rng, family: &str) -> Prog {
 			Prog::new(family, code.to_owned()).err("StackOverflow").cyc()
 		}
 		"cyclic-garbage" => {
-			let variant = rng.below(9);
+			let variant = rng.below(12);
 			match variant {
 				// cycles that run through array views: long concatenations (kept as views above 1000
 				// elements), slices, reversed and repeated arrays, object value pickers
@@ -868,6 +881,11 @@ pub fn gen_family(rng: &mut Rng, family: &str) -> Prog {
 				6 => Prog::new(family, "local o = { v: [self, 1, 2, 3][0:2], w: std.reverse(self.v), x: std.repeat(self.w, 2) }; std.length(o.x)".to_owned()).expect("4").cyc(),
 				7 => Prog::new(family, "local o = { a: 1, vals: std.objectValues(self), kv: std.objectKeysValues(self) }; [std.length(o.vals), std.length(o.kv)]".to_owned()).expect("[3,3]").cyc(),
 				8 => Prog::new(family, "local o = { m: std.map(function(x) o, std.range(1, 3)), f: std.filter(function(x) true, self.m) }; std.length(o.f)".to_owned()).expect("3").cyc(),
+				// eagerly materialised arrays (std.filter, std.flatMap, std.join, sort) that hold nothing but closures
+				// defined in the scope the array is bound in
+				9 => Prog::new(family, "local fs = std.filter(function(f) true, [function() fs, function() 1]); std.length(fs)".to_owned()).expect("2").cyc(),
+				10 => Prog::new(family, "local o = { fs:: std.flatMap(function(f) [f, f], [function() $.fs, std.length]), n: std.length(self.fs) }; o.n".to_owned()).expect("4").cyc(),
+				11 => Prog::new(family, "local a = std.filter(function(f) true, [function() a]), b = std.filter(function(f) true, [function() b]), c = a + b; std.length(c) + std.length(std.join([], [a, b]))".to_owned()).expect("4").cyc(),
 				0 => Prog::new(family, "local o = { me: self, f: function() o, x: 7 }; o.f().me.x".to_owned()).expect("7").cyc(),
 				1 => Prog::new(family, "local a = { b: b, n: 1 }, b = { a: a, n: 2 }; a.b.a.b.n".to_owned()).expect("2").cyc(),
 				2 => Prog::new(
